@@ -18,10 +18,458 @@ pub open spec fn mont_red(r: int, t: int, m: int, big_r: int) -> bool { 0 <= r <
 /// k * m[0] == -1 (mod B)
 pub open spec fn neg_inv_ok(k: Limb, m0: Limb) -> bool { (k.0 as int * m0.0 as int) % B() == B() - 1 }
 
+/// The residue represented by the Montgomery-form value t (R = B^n): the a in [0, m) with a * R == t (mod m).
+/// For odd m it exists and is unique (lemma_mont_repr, lemma_mont_repr_unique).
+pub closed spec fn mont_repr(t: int, m: int, n: nat) -> int { choose|a: int| mont_red(a, t, m, bp(n)) }
+
+/// outcome of the word-by-word reduction loop: (upper + meta * R) * R == T + u * m for some u < R
+pub open spec fn mont_rel(u: int, uv: int, meta: int, t: int, mv: int, r: int) -> bool { 0 <= u < r && (uv + meta * r) * r == t + u * mv }
+pub open spec fn mont_post(u: int, up: Seq<Limb>, meta: Limb, lo0: Seq<Limb>, up0: Seq<Limb>, m: Seq<Limb>) -> bool {
+    mont_rel(u, val(up, m.len()), meta.0 as int, val(lo0 + up0, 2 * m.len()), val(m, m.len()), bp(m.len()))
+}
+
+// ---- R is invertible modulo an odd m
+
+/// 2^j * ((m+1)/2)^j == 1 (mod m)
+proof fn lemma_half_inv(m: int, j: nat)
+    requires m > 0, m % 2 == 1
+    ensures (p2(j) * pow((m + 1) / 2, j)) % m == 1int % m
+    decreases j
+{
+    let h = (m + 1) / 2;
+    if j == 0 {
+        lemma_pow2_64(); lemma_pow0(h);
+    } else {
+        let j1 = (j - 1) as nat;
+        lemma_half_inv(m, j1);
+        lemma_pow2_unfold(j);
+        assert(pow(h, j) == h * pow(h, j1)) by { reveal(pow); }
+        let a = p2(j1); let c = pow(h, j1);
+        assert(p2(j) == 2 * a);
+        assert((2 * a) * (h * c) == (a * c) * (2 * h)) by (nonlinear_arith);
+        assert(2 * h == m + 1);
+        lemma_mod_add_multiples_vanish(1, m);
+        assert((2 * h) % m == 1int % m);
+        lemma_mul_mod_noop_general(a * c, 2 * h, m);
+        lemma_mul_mod_noop_general(1, 1, m);
+    }
+}
+
+/// an inverse of R = B^n modulo an odd m
+pub proof fn lemma_r_inv(m: int, n: nat) -> (ir: int)
+    requires m > 0, m % 2 == 1
+    ensures (bp(n) * ir) % m == 1int % m
+{
+    lemma_half_inv(m, 64 * n);
+    lemma_bp_pow2(n);
+    pow((m + 1) / 2, 64 * n)
+}
+
+/// x * 1 == x (mod m), with 1 given as something congruent to 1
+proof fn lemma_mul_one_mod(x: int, e: int, m: int)
+    requires m > 0, e % m == 1int % m
+    ensures (x * e) % m == x % m
+{
+    lemma_mul_mod_noop_right(x, e, m);
+    lemma_mul_mod_noop_right(x, 1, m);
+    assert(x * 1 == x);
+}
+
+/// R can be cancelled modulo an odd m
+pub proof fn lemma_mont_cancel(x: int, y: int, m: int, n: nat)
+    requires m > 0, m % 2 == 1, (x * bp(n)) % m == (y * bp(n)) % m
+    ensures x % m == y % m
+{
+    let r = bp(n);
+    let ir = lemma_r_inv(m, n);
+    lemma_mul_one_mod(x, r * ir, m);
+    lemma_mul_one_mod(y, r * ir, m);
+    assert(x * (r * ir) == (x * r) * ir) by (nonlinear_arith);
+    assert(y * (r * ir) == (y * r) * ir) by (nonlinear_arith);
+    lemma_mul_mod_noop_left(x * r, ir, m);
+    lemma_mul_mod_noop_left(y * r, ir, m);
+}
+
+/// mont_repr is well defined: it is a canonical residue and represents t
+pub proof fn lemma_mont_repr(t: int, m: int, n: nat)
+    requires m > 0, m % 2 == 1
+    ensures mont_red(mont_repr(t, m, n), t, m, bp(n))
+{
+    let r = bp(n);
+    let ir = lemma_r_inv(m, n);
+    let a = (t * ir) % m;
+    lemma_mod_bound(t * ir, m);
+    lemma_mul_mod_noop_left(t * ir, r, m);
+    assert((t * ir) * r == t * (r * ir)) by (nonlinear_arith);
+    lemma_mul_one_mod(t, r * ir, m);
+    assert(mont_red(a, t, m, r));
+}
+
+/// ... and the only one
+pub proof fn lemma_mont_repr_unique(a: int, t: int, m: int, n: nat)
+    requires m > 0, m % 2 == 1, mont_red(a, t, m, bp(n))
+    ensures a == mont_repr(t, m, n)
+{
+    lemma_mont_repr(t, m, n);
+    let b = mont_repr(t, m, n);
+    lemma_mont_cancel(a, b, m, n);
+    lemma_small_mod(a as nat, m as nat);
+    lemma_small_mod(b as nat, m as nat);
+}
+
+/// congruent Montgomery values represent the same residue
+pub proof fn lemma_mont_repr_cong(s: int, t: int, m: int, n: nat)
+    requires m > 0, m % 2 == 1, s % m == t % m
+    ensures mont_repr(s, m, n) == mont_repr(t, m, n)
+{
+    lemma_mont_repr(s, m, n);
+    lemma_mont_repr_unique(mont_repr(s, m, n), t, m, n);
+}
+
+/// the Montgomery form of a is a * R mod m
+pub proof fn lemma_mont_repr_of(a: int, m: int, n: nat)
+    requires m > 0, m % 2 == 1
+    ensures mont_repr((a * bp(n)) % m, m, n) == a % m, mont_repr(a * bp(n), m, n) == a % m
+{
+    lemma_mod_bound(a, m);
+    lemma_mul_mod_noop_left(a, bp(n), m);
+    lemma_mod_twice(a * bp(n), m);
+    lemma_mont_repr_unique(a % m, (a * bp(n)) % m, m, n);
+    lemma_mont_repr_unique(a % m, a * bp(n), m, n);
+}
+
+/// Montgomery multiplication multiplies the represented residues
+pub proof fn lemma_mont_repr_mul(r: int, x: int, y: int, m: int, n: nat)
+    requires m > 0, m % 2 == 1, mont_red(r, x * y, m, bp(n))
+    ensures mont_repr(r, m, n) == (mont_repr(x, m, n) * mont_repr(y, m, n)) % m
+{
+    let rr = bp(n);
+    let ra = mont_repr(x, m, n); let rb = mont_repr(y, m, n);
+    lemma_mont_repr(x, m, n); lemma_mont_repr(y, m, n);
+    let c = (ra * rb) % m;
+    lemma_mod_bound(ra * rb, m);
+    // r*R == x*y == (ra*R)*(rb*R)
+    lemma_mul_mod_noop_general(x, y, m);
+    lemma_mul_mod_noop_general(ra * rr, rb * rr, m);
+    assert((ra * rr) * (rb * rr) == ((ra * rb) * rr) * rr) by (nonlinear_arith);
+    // (c*R)*R == ((ra*rb)*R)*R
+    lemma_mul_mod_noop_left(ra * rb, rr, m);
+    lemma_mul_mod_noop_left(c * rr, rr, m);
+    lemma_mul_mod_noop_left((ra * rb) * rr, rr, m);
+    assert(((c * rr) * rr) % m == (r * rr) % m);
+    lemma_mont_cancel(c * rr, r, m, n);
+    lemma_mont_repr_unique(c, r, m, n);
+}
+
+/// modular addition / subtraction of Montgomery values adds / subtracts the represented residues
+pub proof fn lemma_mont_repr_add(x: int, y: int, m: int, n: nat)
+    requires m > 0, m % 2 == 1
+    ensures mont_repr((x + y) % m, m, n) == (mont_repr(x, m, n) + mont_repr(y, m, n)) % m
+{
+    let rr = bp(n);
+    let ra = mont_repr(x, m, n); let rb = mont_repr(y, m, n);
+    lemma_mont_repr(x, m, n); lemma_mont_repr(y, m, n);
+    let c = (ra + rb) % m;
+    lemma_mod_bound(ra + rb, m);
+    lemma_mul_mod_noop_left(ra + rb, rr, m);
+    assert((ra + rb) * rr == ra * rr + rb * rr) by (nonlinear_arith);
+    lemma_add_mod_noop(ra * rr, rb * rr, m);
+    lemma_add_mod_noop(x, y, m);
+    lemma_mod_twice(x + y, m);
+    lemma_mont_repr_unique(c, (x + y) % m, m, n);
+}
+
+pub proof fn lemma_mont_repr_sub(x: int, y: int, m: int, n: nat)
+    requires m > 0, m % 2 == 1
+    ensures mont_repr((x - y) % m, m, n) == (mont_repr(x, m, n) - mont_repr(y, m, n)) % m
+{
+    let rr = bp(n);
+    let ra = mont_repr(x, m, n); let rb = mont_repr(y, m, n);
+    lemma_mont_repr(x, m, n); lemma_mont_repr(y, m, n);
+    let c = (ra - rb) % m;
+    lemma_mod_bound(ra - rb, m);
+    lemma_mul_mod_noop_left(ra - rb, rr, m);
+    assert((ra - rb) * rr == ra * rr - rb * rr) by (nonlinear_arith);
+    lemma_sub_mod_noop(ra * rr, rb * rr, m);
+    lemma_sub_mod_noop(x, y, m);
+    lemma_mod_twice(x - y, m);
+    lemma_mont_repr_unique(c, (x - y) % m, m, n);
+}
+
+// ---- lemmas for the reduction loop
+
+/// (a + ((a*k) % B) * m0) % B == 0 when (k*m0) % B == B-1
+proof fn lemma_low_word_zero(a: int, k: int, m0: int)
+    requires 0 <= a < B(), 0 <= k < B(), 0 <= m0 < B(), (k * m0) % B() == B() - 1
+    ensures (a + ((a * k) % B()) * m0) % B() == 0
+{
+    let b = B();
+    let u = (a * k) % b;
+    lemma_mul_mod_noop_left(a * k, m0, b);
+    assert((u * m0) % b == ((a * k) * m0) % b);
+    assert((a * k) * m0 == a * (k * m0)) by (nonlinear_arith);
+    lemma_mul_mod_noop_right(a, k * m0, b);
+    assert((a * (k * m0)) % b == (a * (b - 1)) % b);
+    assert(a * (b - 1) == a * b - a) by (nonlinear_arith);
+    lemma_add_mod_noop_right(a, u * m0, b);
+    lemma_add_mod_noop_right(a, a * (b - 1), b);
+    assert((a + u * m0) % b == (a + a * (b - 1)) % b);
+    assert(a + a * (b - 1) == a * b);
+    lemma_mod_multiples_basic(a, b);
+}
+
+/// the low word cancels: carry * B == a + u * m0 for the mac result (lw, carry)
+proof fn lemma_mr_first(lw: int, carry: int, a: int, k: int, u: int, m0: int)
+    requires 0 <= a < B(), 0 <= k < B(), 0 <= m0 < B(), (k * m0) % B() == B() - 1, u == (a * k) % B(),
+        0 <= lw < B(), lw + carry * B() == a + u * m0
+    ensures carry * B() == a + u * m0
+{
+    lemma_low_word_zero(a, k, m0);
+    lemma_mod_multiples_vanish(carry, lw, B());
+    assert(B() * carry + lw == lw + carry * B()) by (nonlinear_arith);
+    lemma_small_mod(lw as nat, B() as nat);
+}
+
+/// val(lo ++ up, n + k) == val(lo, n) + val(up, k) * B^n
+proof fn lemma_mr_concat(lo: Seq<Limb>, up: Seq<Limb>, n: nat, k: nat)
+    requires lo.len() == n, up.len() >= k,
+    ensures val(lo + up, n + k) == val(lo, n) + val(up, k) * bp(n),
+    decreases k
+{
+    if k > 0 {
+        lemma_mr_concat(lo, up, n, (k - 1) as nat);
+        lemma_bp_add(n, (k - 1) as nat);
+        assert((lo + up)[n + k - 1] == up[k - 1]);
+        let a = up[k - 1].0 as int;
+        assert(a * bp((n + k - 1) as nat) == a * bp((k - 1) as nat) * bp(n)) by (nonlinear_arith)
+            requires bp((n + k - 1) as nat) == bp(n) * bp((k - 1) as nat);
+        assert((val(up, (k - 1) as nat) + a * bp((k - 1) as nat)) * bp(n) == val(up, (k - 1) as nat) * bp(n) + a * bp((k - 1) as nat) * bp(n)) by (nonlinear_arith);
+    } else {
+        lemma_val_ext(lo + up, lo, n);
+        assert(0 * bp(n) == 0);
+    }
+}
+
+/// one multiply-accumulate step of a reduction row (position k = i + j receives u * m[j])
+proof fn lemma_mr_mac_step(c_after: Seq<Limb>, c_before: Seq<Limb>, cb: Seq<Limb>, ms: Seq<Limb>, i: nat, j: nat, x: int, carry: int, carry_b: int)
+    requires
+        j >= 1,
+        c_after =~= c_before.update((i + j) as int, c_after[(i + j) as int]),
+        0 <= i + j < c_before.len(),
+        c_before[(i + j) as int] == cb[(i + j) as int],
+        c_after[(i + j) as int].0 as int + carry * B() == cb[(i + j) as int].0 as int + x * ms[j as int].0 as int + carry_b,
+        val(c_before, i + j) - val(c_before, i + 1) + carry_b * bp(i + j)
+            == val(cb, i + j) - val(cb, i) + x * val(ms, j) * bp(i),
+    ensures
+        val(c_after, i + j + 1) - val(c_after, i + 1) + carry * bp(i + j + 1)
+            == val(cb, i + j + 1) - val(cb, i) + x * val(ms, j + 1) * bp(i),
+{
+    let k = i + j;
+    lemma_val_ext(c_before, c_after, k);
+    lemma_val_ext(c_before, c_after, i + 1);
+    lemma_bp_succ(k);
+    lemma_bp_add(i, j);
+    let pk = bp(k);
+    let w = c_after[k as int].0 as int; let cc = cb[k as int].0 as int;
+    let y = ms[j as int].0 as int;
+    assert(w * pk + carry * (B() * pk) == cc * pk + x * y * pk + carry_b * pk) by (nonlinear_arith)
+        requires w + carry * B() == cc + x * y + carry_b;
+    assert(x * y * pk == x * (y * bp(j)) * bp(i)) by (nonlinear_arith)
+        requires pk == bp(i) * bp(j);
+    assert(x * (val(ms, j) + y * bp(j)) * bp(i) == x * val(ms, j) * bp(i) + x * (y * bp(j)) * bp(i)) by (nonlinear_arith);
+    assert(val(ms, j + 1) == val(ms, j) + y * bp(j));
+    assert(val(c_after, k + 1) == val(c_after, k) + w * pk);
+    assert(val(cb, k + 1) == val(cb, k) + cc * pk);
+}
+
+/// final step: the reduced value is < 2m, the meta carry is a bit, and one conditional subtraction gives t * R^-1 mod m
+proof fn lemma_mr_final(upv: int, meta: int, t: int, u: int, m: int, r: int)
+    requires 0 <= u < r, (upv + meta * r) * r == t + u * m, 0 <= t < m * r, 0 <= upv < r, 0 <= meta, 0 < m < r
+    ensures meta <= 1, 0 <= upv + meta * r < 2 * m,
+        ((((upv + meta * r) - m) % m) * r) % m == t % m
+{
+    let x = upv + meta * r;
+    assert(u * m < r * m) by (nonlinear_arith) requires 0 <= u < r, 0 < m;
+    assert(m * r == r * m) by (nonlinear_arith);
+    assert(x < 2 * m) by (nonlinear_arith) requires x * r < 2 * (m * r), r > 0;
+    assert(meta * r >= 0) by (nonlinear_arith) requires meta >= 0, r > 0;
+    assert(meta <= 1) by (nonlinear_arith) requires meta * r < 2 * r, r > 0;
+    let q = (x - m) / m; let rem = (x - m) % m;
+    lemma_fundamental_div_mod(x - m, m);
+    assert(rem * r == m * (u - r - q * r) + t) by (nonlinear_arith)
+        requires x - m == m * q + rem, x * r == t + u * m;
+    lemma_mod_multiples_vanish(u - r - q * r, t, m);
+}
+
 //@@ subst \b(Self|Uint)::(ZERO|ONE|MAX|BITS|LOG2_BITS)\b(?!\() => \1::\2()
 //@@ subst \bUint::<(\w+)>::(ZERO|ONE|MAX|BITS)\b(?!\() => Uint::<\1>::\2()
-//@@ fn src/modular/reduction.rs | - | montgomery_reduction | stub | props C08 C11
-#[verifier::external_body]
+//@@ fn src/modular/reduction.rs | - | montgomery_reduction_inner | body | props C08 C11
+pub const fn montgomery_reduction_inner(
+    upper: &mut [Limb],
+    lower: &mut [Limb],
+    modulus: &[Limb],
+    mod_neg_inv: Limb,
+) -> (ret__: Limb)
+//@+
+    requires
+        modulus.len() == old(upper).len(), modulus.len() == old(lower).len(),
+        modulus.len() >= 1, modulus.len() < 0x1000_0000,
+        neg_inv_ok(mod_neg_inv, modulus[0]),
+    ensures
+        final(upper).len() == modulus.len(), final(lower).len() == modulus.len(),
+        exists|u: int| mont_post(u, final(upper)@, ret__, old(lower)@, old(upper)@, modulus@),
+//@-
+{
+    let nlimbs = modulus.len();
+    debug_assert!(nlimbs == upper.len());
+    debug_assert!(nlimbs == lower.len());
+//@+
+    let ghost n = nlimbs as nat;
+    let ghost lo0 = lower@; let ghost up0 = upper@;
+    let ghost t = val(lower@ + upper@, 2 * n);
+    let ghost mv = val(modulus@, n);
+    let ghost mut uacc: int = 0;
+//@-
+    let mut meta_carry = Limb::ZERO;
+    let mut new_sum;
+    let mut i = 0;
+//@+
+    proof { lemma_bp_succ(0); }
+//@-
+    while i < nlimbs
+//@+
+        invariant
+            n == nlimbs, nlimbs == modulus.len(), upper.len() == n, lower.len() == n, 1 <= n < 0x1000_0000,
+            i <= n, mv == val(modulus@, n),
+            neg_inv_ok(mod_neg_inv, modulus[0]),
+            0 <= uacc < bp(i as nat),
+            val(lower@ + upper@, 2 * n) - val(lower@ + upper@, i as nat) + meta_carry.0 as int * bp((n + i) as nat) == t + uacc * mv,
+        decreases n - i
+//@-
+{
+//@+
+        let ghost cb = lower@ + upper@;
+        let ghost meta_b = meta_carry;
+//@-
+        let u = lower[i].wrapping_mul(mod_neg_inv);
+        let (_, mut carry) = lower[i].mac(u, modulus[0], Limb::ZERO);
+        let mut new_limb;
+//@+
+        proof {
+            let a = lower@[i as int].0 as int; let m0 = modulus@[0].0 as int;
+            let lw = a + u.0 as int * m0 - carry.0 as int * B();
+            lemma_mr_first(lw, carry.0 as int, a, mod_neg_inv.0 as int, u.0 as int, m0);
+            lemma_bp_succ(i as nat);
+            assert(val(modulus@, 1) == modulus@[0].0 as int) by { reveal_with_fuel(val, 2); }
+            let pi_ = bp(i as nat);
+            assert(carry.0 as int * (B() * pi_) == a * pi_ + u.0 as int * m0 * pi_) by (nonlinear_arith)
+                requires carry.0 as int * B() == a + u.0 as int * m0;
+            assert(val(cb, (i + 1) as nat) == val(cb, i as nat) + a * pi_);
+        }
+//@-
+        let mut j = 1;
+        while j < (nlimbs - i)
+//@+
+            invariant
+                n == nlimbs, nlimbs == modulus.len(), upper.len() == n, lower.len() == n, 1 <= n < 0x1000_0000,
+                i < n, 1 <= j <= n - i, cb.len() == 2 * n,
+                forall|k: int| 0 <= k <= i ==> (lower@ + upper@)[k] == cb[k],
+                forall|k: int| i + j <= k < 2 * n ==> (lower@ + upper@)[k] == cb[k],
+                val(lower@ + upper@, (i + j) as nat) - val(lower@ + upper@, (i + 1) as nat) + carry.0 as int * bp((i + j) as nat)
+                    == val(cb, (i + j) as nat) - val(cb, i as nat) + u.0 as int * val(modulus@, j as nat) * bp(i as nat),
+            decreases n - i - j
+//@-
+{
+//@+
+            let ghost c_before = lower@ + upper@;
+            let ghost carry_b = carry;
+//@-
+            let (__t0, __t1) = lower[i + j].mac(u, modulus[j], carry); new_limb = __t0; carry = __t1;
+            lower[i + j] = new_limb;
+//@+
+            proof {
+                let c_after = lower@ + upper@;
+                assert(c_after =~= c_before.update((i + j) as int, new_limb));
+                lemma_mr_mac_step(c_after, c_before, cb, modulus@, i as nat, j as nat, u.0 as int, carry.0 as int, carry_b.0 as int);
+            }
+//@-
+            j += 1;
+        }
+        while j < nlimbs
+//@+
+            invariant
+                n == nlimbs, nlimbs == modulus.len(), upper.len() == n, lower.len() == n, 1 <= n < 0x1000_0000,
+                i < n, n - i <= j <= n, j >= 1, cb.len() == 2 * n,
+                forall|k: int| 0 <= k <= i ==> (lower@ + upper@)[k] == cb[k],
+                forall|k: int| i + j <= k < 2 * n ==> (lower@ + upper@)[k] == cb[k],
+                val(lower@ + upper@, (i + j) as nat) - val(lower@ + upper@, (i + 1) as nat) + carry.0 as int * bp((i + j) as nat)
+                    == val(cb, (i + j) as nat) - val(cb, i as nat) + u.0 as int * val(modulus@, j as nat) * bp(i as nat),
+            decreases n - j
+//@-
+{
+//@+
+            let ghost c_before = lower@ + upper@;
+            let ghost carry_b = carry;
+//@-
+            let (__t2, __t3) = upper[i + j - nlimbs].mac(u, modulus[j], carry); new_limb = __t2; carry = __t3;
+            upper[i + j - nlimbs] = new_limb;
+//@+
+            proof {
+                let c_after = lower@ + upper@;
+                assert(c_after =~= c_before.update((i + j) as int, new_limb));
+                lemma_mr_mac_step(c_after, c_before, cb, modulus@, i as nat, j as nat, u.0 as int, carry.0 as int, carry_b.0 as int);
+            }
+//@-
+            j += 1;
+        }
+//@+
+        let ghost c_before = lower@ + upper@;
+//@-
+        let (__t4, __t5) = upper[i].adc(carry, meta_carry); new_sum = __t4; meta_carry = __t5;
+        upper[i] = new_sum;
+//@+
+        proof {
+            let c_after = lower@ + upper@;
+            let k = (n + i) as nat;
+            assert(c_after =~= c_before.update(k as int, new_sum));
+            lemma_val_ext(c_before, c_after, k);
+            lemma_val_ext(c_before, c_after, (i + 1) as nat);
+            lemma_val_ext(c_before, cb, (i + 1) as nat);
+            lemma_tv_ext(c_after, cb, (k + 1) as nat, 2 * n);
+            lemma_bp_succ(k);
+            lemma_bp_succ(i as nat);
+            let pk = bp(k);
+            let w = new_sum.0 as int; let cc = cb[k as int].0 as int;
+            let ca = carry.0 as int; let mb = meta_b.0 as int; let ma = meta_carry.0 as int;
+            assert(c_before[k as int] == cb[k as int]);
+            assert(w + ma * B() == cc + ca + mb);
+            assert(w * pk + ma * (B() * pk) == cc * pk + ca * pk + mb * pk) by (nonlinear_arith)
+                requires w + ma * B() == cc + ca + mb;
+            assert(val(c_after, k + 1) == val(c_after, k) + w * pk);
+            assert(val(cb, k + 1) == val(cb, k) + cc * pk);
+            assert(val(cb, (i + 1) as nat) == val(cb, i as nat) + cb[i as int].0 as int * bp(i as nat));
+            uacc = uacc + u.0 as int * bp(i as nat);
+            assert((uacc - u.0 as int * bp(i as nat) + u.0 as int * bp(i as nat)) * mv == (uacc - u.0 as int * bp(i as nat)) * mv + u.0 as int * mv * bp(i as nat)) by (nonlinear_arith);
+            assert(u.0 as int * bp(i as nat) <= (B() - 1) * bp(i as nat)) by (nonlinear_arith) requires 0 <= u.0 as int <= B() - 1, bp(i as nat) > 0;
+            assert((B() - 1) * bp(i as nat) + bp(i as nat) == B() * bp(i as nat)) by (nonlinear_arith);
+            assert(u.0 as int * bp(i as nat) >= 0) by (nonlinear_arith) requires 0 <= u.0 as int, bp(i as nat) > 0;
+        }
+//@-
+        i += 1;
+    }
+//@+
+    proof {
+        lemma_bp_add(n, n);
+        lemma_mr_concat(lower@, upper@, n, n);
+        lemma_mr_concat(lower@, upper@, n, 0);
+        assert((val(upper@, n) + meta_carry.0 as int * bp(n)) * bp(n) == val(upper@, n) * bp(n) + meta_carry.0 as int * (bp(n) * bp(n))) by (nonlinear_arith);
+        assert(mont_post(uacc, upper@, meta_carry, lo0, up0, modulus@));
+    }
+//@-
+    meta_carry
+}
+//@@ end
+//@@ fn src/modular/reduction.rs | - | montgomery_reduction | body | props C08 C11
 pub const fn montgomery_reduction<const LIMBS: usize>(
     lower_upper: &(Uint<LIMBS>, Uint<LIMBS>),
     modulus: &Odd<Uint<LIMBS>>,
@@ -30,14 +478,44 @@ pub const fn montgomery_reduction<const LIMBS: usize>(
 //@+
     requires 1 <= LIMBS < 0x1000_0000, modulus.0.v() % 2 == 1, neg_inv_ok(mod_neg_inv, modulus.0.limbs@[0]),
         lower_upper.0.v() + lower_upper.1.v() * bp(LIMBS as nat) < modulus.0.v() * bp(LIMBS as nat)
-    ensures mont_red(ret__.v(), lower_upper.0.v() + lower_upper.1.v() * bp(LIMBS as nat), modulus.0.v(), bp(LIMBS as nat))
+    ensures mont_red(ret__.v(), lower_upper.0.v() + lower_upper.1.v() * bp(LIMBS as nat), modulus.0.v(), bp(LIMBS as nat)),
+        ret__.v() == mont_repr(lower_upper.0.v() + lower_upper.1.v() * bp(LIMBS as nat), modulus.0.v(), LIMBS as nat)
 //@-
 {
-    unimplemented!()
+    let (mut lower, mut upper) = *lower_upper;
+//@+
+    let ghost lo0 = lower.limbs@; let ghost up0 = upper.limbs@;
+    let ghost n = LIMBS as nat;
+    let ghost t = lower_upper.0.v() + lower_upper.1.v() * bp(n);
+    let ghost m = modulus.0.v();
+//@-
+    let meta_carry = montgomery_reduction_inner(
+        &mut upper.limbs,
+        &mut lower.limbs,
+        &modulus.0.limbs,
+        mod_neg_inv,
+    );
+    // Division is simply taking the upper half of the limbs
+    // Final reduction (at this point, the value is at most 2 * modulus,
+    // so `meta_carry` is either 0 or 1)
+//@+
+    proof {
+        let u = choose|u: int| mont_post(u, upper.limbs@, meta_carry, lo0, up0, modulus.0.limbs@);
+        lemma_mr_concat(lo0, up0, n, n);
+        assert(2 * n == n + n);
+        lemma_val_bound(upper.limbs@, n);
+        lemma_val_bound(lo0, n); lemma_val_bound(up0, n);
+        lemma_val_bound(modulus.0.limbs@, n);
+        lemma_mr_final(upper.v(), meta_carry.0 as int, t, u, m, bp(n));
+        let r = ((upper.v() + meta_carry.0 as int * bp(n)) - m) % m;
+        lemma_mod_bound((upper.v() + meta_carry.0 as int * bp(n)) - m, m);
+        lemma_mont_repr_unique(r, t, m, n);
+    }
+//@-
+    upper.sub_mod_with_carry(meta_carry, &modulus.0, &modulus.0)
 }
 //@@ end
-//@@ fn src/modular/mul.rs | - | mul_montgomery_form | stub | props C08 C09 C11
-#[verifier::external_body]
+//@@ fn src/modular/mul.rs | - | mul_montgomery_form | body | props C08 C09 C11
 pub const fn mul_montgomery_form<const LIMBS: usize>(
     a: &Uint<LIMBS>,
     b: &Uint<LIMBS>,
@@ -46,14 +524,29 @@ pub const fn mul_montgomery_form<const LIMBS: usize>(
 ) -> (ret__: Uint<LIMBS>)
 //@+
     requires 1 <= LIMBS < 0x1000_0000, modulus.0.v() % 2 == 1, neg_inv_ok(mod_neg_inv, modulus.0.limbs@[0]), a.v() < modulus.0.v(), b.v() < modulus.0.v()
-    ensures mont_red(ret__.v(), a.v() * b.v(), modulus.0.v(), bp(LIMBS as nat))
+    ensures mont_red(ret__.v(), a.v() * b.v(), modulus.0.v(), bp(LIMBS as nat)),
+        ret__.v() < modulus.0.v(),
+        mont_repr(ret__.v(), modulus.0.v(), LIMBS as nat)
+            == (mont_repr(a.v(), modulus.0.v(), LIMBS as nat) * mont_repr(b.v(), modulus.0.v(), LIMBS as nat)) % modulus.0.v()
 //@-
 {
-    unimplemented!()
+    let product = a.split_mul(b);
+//@+
+    proof {
+        let m = modulus.0.v(); let n = LIMBS as nat;
+        lemma_val_bound(a.limbs@, n); lemma_val_bound(b.limbs@, n); lemma_val_bound(modulus.0.limbs@, n);
+        assert(a.v() * b.v() < m * bp(n)) by (nonlinear_arith)
+            requires 0 <= a.v() < m, 0 <= b.v() < m, m < bp(n);
+        assert forall|r: int| mont_red(r, a.v() * b.v(), m, bp(n)) implies
+            #[trigger] mont_repr(r, m, n) == (mont_repr(a.v(), m, n) * mont_repr(b.v(), m, n)) % m by {
+            lemma_mont_repr_mul(r, a.v(), b.v(), m, n);
+        }
+    }
+//@-
+    montgomery_reduction::<LIMBS>(&product, modulus, mod_neg_inv)
 }
 //@@ end
-//@@ fn src/modular/mul.rs | - | square_montgomery_form | stub | props C08 C09 C11
-#[verifier::external_body]
+//@@ fn src/modular/mul.rs | - | square_montgomery_form | body | props C08 C09 C11
 pub const fn square_montgomery_form<const LIMBS: usize>(
     a: &Uint<LIMBS>,
     modulus: &Odd<Uint<LIMBS>>,
@@ -61,10 +554,84 @@ pub const fn square_montgomery_form<const LIMBS: usize>(
 ) -> (ret__: Uint<LIMBS>)
 //@+
     requires 1 <= LIMBS < 0x1000_0000, modulus.0.v() % 2 == 1, neg_inv_ok(mod_neg_inv, modulus.0.limbs@[0]), a.v() < modulus.0.v()
-    ensures mont_red(ret__.v(), a.v() * a.v(), modulus.0.v(), bp(LIMBS as nat))
+    ensures mont_red(ret__.v(), a.v() * a.v(), modulus.0.v(), bp(LIMBS as nat)),
+        ret__.v() < modulus.0.v(),
+        mont_repr(ret__.v(), modulus.0.v(), LIMBS as nat)
+            == (mont_repr(a.v(), modulus.0.v(), LIMBS as nat) * mont_repr(a.v(), modulus.0.v(), LIMBS as nat)) % modulus.0.v()
 //@-
 {
-    unimplemented!()
+    let product = a.square_wide();
+//@+
+    proof {
+        let m = modulus.0.v(); let n = LIMBS as nat;
+        lemma_val_bound(a.limbs@, n); lemma_val_bound(modulus.0.limbs@, n);
+        assert(a.v() * a.v() < m * bp(n)) by (nonlinear_arith)
+            requires 0 <= a.v() < m, m < bp(n);
+        assert forall|r: int| mont_red(r, a.v() * a.v(), m, bp(n)) implies
+            #[trigger] mont_repr(r, m, n) == (mont_repr(a.v(), m, n) * mont_repr(a.v(), m, n)) % m by {
+            lemma_mont_repr_mul(r, a.v(), a.v(), m, n);
+        }
+    }
+//@-
+    montgomery_reduction::<LIMBS>(&product, modulus, mod_neg_inv)
+}
+//@@ end
+//@@ fn src/modular/add.rs | - | add_montgomery_form | body | props C08 C11
+pub const fn add_montgomery_form<const LIMBS: usize>(
+    a: &Uint<LIMBS>,
+    b: &Uint<LIMBS>,
+    modulus: &Odd<Uint<LIMBS>>,
+) -> (ret__: Uint<LIMBS>)
+//@+
+    requires modulus.0.v() % 2 == 1, a.v() < modulus.0.v(), b.v() < modulus.0.v()
+    ensures ret__.v() < modulus.0.v(), ret__.v() == (a.v() + b.v()) % modulus.0.v(),
+        mont_repr(ret__.v(), modulus.0.v(), LIMBS as nat)
+            == (mont_repr(a.v(), modulus.0.v(), LIMBS as nat) + mont_repr(b.v(), modulus.0.v(), LIMBS as nat)) % modulus.0.v()
+//@-
+{
+//@+
+    proof { lemma_val_bound(a.limbs@, LIMBS as nat); lemma_mont_repr_add(a.v(), b.v(), modulus.0.v(), LIMBS as nat); }
+//@-
+    a.add_mod(b, &modulus.0)
+}
+//@@ end
+//@@ fn src/modular/add.rs | - | double_montgomery_form | body | props C08 C11
+pub const fn double_montgomery_form<const LIMBS: usize>(
+    a: &Uint<LIMBS>,
+    modulus: &Odd<Uint<LIMBS>>,
+) -> (ret__: Uint<LIMBS>)
+//@+
+    requires modulus.0.v() % 2 == 1, a.v() < modulus.0.v()
+    ensures ret__.v() < modulus.0.v(), ret__.v() == (2 * a.v()) % modulus.0.v(),
+        mont_repr(ret__.v(), modulus.0.v(), LIMBS as nat) == (2 * mont_repr(a.v(), modulus.0.v(), LIMBS as nat)) % modulus.0.v()
+//@-
+{
+//@+
+    proof { lemma_val_bound(a.limbs@, LIMBS as nat); lemma_mont_repr_add(a.v(), a.v(), modulus.0.v(), LIMBS as nat); }
+//@-
+    a.double_mod(&modulus.0)
+}
+//@@ end
+//@@ fn src/modular/sub.rs | - | sub_montgomery_form | body | props C08 C11
+pub const fn sub_montgomery_form<const LIMBS: usize>(
+    a: &Uint<LIMBS>,
+    b: &Uint<LIMBS>,
+    modulus: &Odd<Uint<LIMBS>>,
+) -> (ret__: Uint<LIMBS>)
+//@+
+    requires modulus.0.v() % 2 == 1, a.v() < modulus.0.v(), b.v() < modulus.0.v()
+    ensures ret__.v() < modulus.0.v(), ret__.v() == (a.v() - b.v()) % modulus.0.v(),
+        mont_repr(ret__.v(), modulus.0.v(), LIMBS as nat)
+            == (mont_repr(a.v(), modulus.0.v(), LIMBS as nat) - mont_repr(b.v(), modulus.0.v(), LIMBS as nat)) % modulus.0.v()
+//@-
+{
+//@+
+    proof {
+        lemma_val_bound(a.limbs@, LIMBS as nat); lemma_val_bound(b.limbs@, LIMBS as nat);
+        lemma_mont_repr_sub(a.v(), b.v(), modulus.0.v(), LIMBS as nat);
+    }
+//@-
+    a.sub_mod(b, &modulus.0)
 }
 //@@ end
 
